@@ -12,11 +12,15 @@ def run(tier, seed):
         "limits not reached (100000 facts / 10000 iterations / 30 s)",
     ]
     big = tier == "thorough"
-    r = ac.run_universe(ctx, "atten", ac.consts(Universe='"atten"', MaxBlocks=3, Exts="<- ExtsAll",
-                                                 ScopeMenu="<- Scopes4k" if not big else "<- Scopes5",
-                                                 AttenSize='"small"' if not big else '"large"',
-                                                 SampleN=8 if not big else 64), timeout=14000)
+    # the focused universe (every owner x scope x key of the appended block, one- and two-pass derivations) ...
+    r = ac.run_universe(ctx, "atten", ac.consts(Universe='"atten"', MaxBlocks=3, Exts="<- ExtsAll", ScopeMenu="<- Scopes4k",
+                                                 AttenSize='"small"', SampleN=8 if not big else 2), timeout=14000)
     ac.replay(ctx, r.exports["PROG"])
+    if big:
+        # ... and, in the thorough tier, wider menus of E's rules (every scope, rules forging authority / authorizer facts), of the check bodies and of the policies (one-pass derivations)
+        r = ac.run_universe(ctx, "atten-medium", ac.consts(Universe='"atten"', MaxBlocks=3, Exts="<- ExtsAll", ScopeMenu="<- Scopes4k",
+                                                           AttenSize='"medium"', SampleN=64), timeout=14000)
+        ac.replay(ctx, r.exports["PROG"])
     # unbounded part of the argument: TrustProof.tla (the scope -> trusted origins map, copied from Authorizer.tla; TLC
     # checks TrustDefsAgree on every state of the universes) with machine-checked proofs that appending a block whose key
     # nobody names changes no element's trusted origins and that the new block is in none of them (any number of blocks)
